@@ -71,6 +71,7 @@ func (w *c08World) solvency(where string) {
 		}
 		rhs := new(big.Int).Add(supply, inflightDep)
 		rhs.Add(rhs, unpaid)
+		w.run.Check("C08.solvency", tc.SeqAnomaly == "", "c08.l2_sequence_anomaly", w.tr(), "%s: the withdrawals L2 announces do not carry consecutive sequences (%s)", where, tc.SeqAnomaly)
 		w.run.Check("C08.solvency", escrow.Cmp(rhs) == 0, "c08.solvency", w.tr(), "%s after %s: escrow %s != L2 supply %s + deposits in flight %s + unpaid withdrawals %s", d, where, escrow, supply, inflightDep, unpaid)
 		if supply.Sign() > 0 && inflightDep.Sign() > 0 && unpaid.Sign() > 0 {
 			w.cuts3++
@@ -375,8 +376,11 @@ func checkC08(run *mon.Run, rng *mon.Rand, thorough bool) {
 	totalCuts := 0
 	for r := 0; r < runs && !run.TooMany(); r++ {
 		rr := rng.Split()
-		w := &c08World{run: run, rng: rr, tc: newTwoChain(4*time.Second, L2EnvOpts{}), denoms: []string{"uinit", "uusdc"}, feat: map[string]int{}, initial: map[string]*big.Int{}}
+		w := &c08World{run: run, rng: rr, tc: newTwoChain(4*time.Second, L2EnvOpts{}), denoms: []string{"uinit", "uusdc", "uUSDC"}, feat: map[string]int{}, initial: map[string]*big.Int{}}
 		l1 := w.tc.L1.L1
+		for _, u := range w.tc.L1.Users {
+			l1.Fund(u.Addr, sdk.NewCoin("uUSDC", math.NewInt(userFunds))) // an L1 denom differing from uusdc by case only
+		}
 		w.tc.L1.L1.Speculate, w.tc.L2.L2.Speculate = rr.Bool(), rr.Bool()
 		if rr.Bool() {
 			w.tc.L1.EnableShadow(rr.U64())
